@@ -96,13 +96,23 @@ def _run_case(spec):
 
         if kind in ('limits', 'limits-dense'):
             chain = rng.choice(['miscleavage', 'min_length', 'max_length', 'min_mw'])
+            if case.note.get('boundary_len') and rng.random() < 0.7:
+                chain = 'max_length' if case.cfg['max_length'] == case.note['boundary_len'] else 'min_length'
             vals = {'miscleavage': [0, 1, 2, 3], 'min_length': [9, 7, 5], 'max_length': [15, 25, 40],
                     'min_mw': [800., 500., 0.]}[chain]
-            if chain != 'miscleavage' and rng.random() < 0.6:
+            if chain != 'miscleavage' and (rng.random() < 0.6 or case.note.get('boundary_len')):
                 # boundary chain: the limit values are taken from a peptide of the most permissive output, so that peptides lie
                 # EXACTLY on the limit (length == max / min length, mass just above / below the minimum mass)
                 loose = out_of(case, wd, paths, f'{chain}probe', cfg={chain: vals[-1]})
                 cand = sorted(loose)
+                if chain != 'min_mw' and rng.random() < 0.35:
+                    # ... or from a CANONICAL peptide of the reference (own digestion, Met-removed forms included): a canonical
+                    # peptide exactly on the limit has to be in the pool of the stricter run as well
+                    lim0 = cv.limits_of(dict(case.cfg, min_length=5, max_length=45, min_mw=0.))
+                    cand = sorted(dg.canonical_pool(case.ref.proteins(), lim0)) or cand
+                    counters['boundary_from_canonical'] = 1
+                if case.note.get('boundary_len') and chain in ('max_length', 'min_length') and rng.random() < 0.8:
+                    cand = ['A' * case.note['boundary_len']]       # the length the generator aimed the limits at
                 if cand:
                     p0 = rng.choice(cand)
                     if chain == 'max_length' and 8 <= len(p0) <= 39:
@@ -213,7 +223,7 @@ def check(rep, tier, seed, specs=None, n_override=None):
     if specs is None:
         n = n_override or (1600 if quick else 40000)
         kinds = ['limits', 'limits', 'flags', 'flags', 'records', 'records-dense', 'files', 'switch', 'limits-dense']
-        strata = ['small', 'multi', 'as', 'fusion_var', 'circ_var', 'sec', 'small', 'circ', 'fusion', 'units']
+        strata = ['small', 'multi', 'as', 'fusion_var', 'circ_var', 'sec', 'small', 'circ', 'fusion', 'units', 'paralog', 'fs_pair']
         specs = []
         for i in range(n):
             kind = kinds[i % len(kinds)]
